@@ -4,6 +4,7 @@ import (
 	"bytes"
 	"fmt"
 	"math/rand"
+	"os"
 	"path/filepath"
 	"time"
 
@@ -214,6 +215,15 @@ func runC05(r *vf.Run) {
 	cases = append(cases, c5{id: "r70000", crafted: true, ds: func(rng *rand.Rand) *gen.Dataset {
 		return gen.MakeDataset(rng, "r70000", gen.DatasetOpts{Rows: 70000, MaxCols: 3, EmptyRows: true, TrailingEmpty: 2, MaxCard: 1500})
 	}})
+	cases = append(cases, c5{id: "dense150k", crafted: true, ds: func(rng *rand.Rand) *gen.Dataset {
+		// several MiB of serialised bitmaps in few values (no unique column)
+		return gen.MakeDataset(rng, "dense150k", gen.DatasetOpts{Rows: 150000, MaxCols: 6, NoMissing: true, Shapes: []gen.ValueShape{gen.ShapeCategorical, gen.ShapeBinary}})
+	}})
+	cases = append(cases, c5{id: "wide-rows", crafted: true, ds: func(rng *rand.Rand) *gen.Dataset { return gen.WideRows(rng) }})
+	cases = append(cases, c5{id: "u70000", crafted: true, ds: func(rng *rand.Rand) *gen.Dataset {
+		// more than 65535 distinct values in one column
+		return gen.MakeDataset(rng, "u70000", gen.DatasetOpts{Rows: 70000, MaxCols: 1, Shapes: []gen.ValueShape{gen.ShapeUnique}, NoMissing: true})
+	}})
 	cases = append(cases, c5{id: "concat", crafted: true, ds: func(rng *rand.Rand) *gen.Dataset {
 		return gen.MakeDataset(rng, "concat", gen.DatasetOpts{Rows: 400, Concat: true, WithUnique: true})
 	}})
@@ -288,6 +298,35 @@ func runC05(r *vf.Run) {
 			r.Eval(1)
 			if d := compareRaw(raws[ix.Writers[0]], raws[w]); d != "" {
 				r.Violation(id+"/"+w, "writers-differ", map[string]any{"difference": d, "compared": ix.Writers[0] + " vs " + w, "rows": len(ds.Rows), "specs": specStrings(ds), "first_rows": witnessRows(ds, 20)})
+			}
+		}
+		// the same PATH used for another index later in the same process: what is opened is what is in the file now
+		if r.Want(id+"/path-reused") && len(ds.Rows) > 0 && len(ds.Rows) <= 5000 {
+			p := filepath.Join(dir, "reused.updog")
+			other := &gen.Dataset{ID: id + "-other", Rows: []oracle.Row{{"zz_other": "1", "k0": "only-here"}, {"zz_other": "2"}}}
+			other.Index()
+			for round, d2 := range []*gen.Dataset{other, ds, other} {
+				os.Remove(p)
+				if err := ix.Build(ix.Writers[round%3], p, d2.Rows); err != nil {
+					r.Violation(id+"/path-reused", "build", err.Error())
+					break
+				}
+				idx, err := ix.Open(p, ix.OpenModes[round%2], nil)
+				if err != nil {
+					r.Violation(id+"/path-reused", "open", err.Error())
+					break
+				}
+				d := oracle.CompareSchema(idx.GetSchema(), d2.Rows)
+				if d == "" {
+					_, d = runProbes(idx, probeSet(rng, d2, 100, 5))
+				}
+				idx.Close()
+				r.Eval(1)
+				r.Count("opens_of_a_reused_path", 1)
+				if d != "" {
+					r.Violation(id+"/path-reused", "probe", map[string]any{"difference": d, "round": round + 1, "explanation": "the file at this path was replaced by another index between the opens (same process)"})
+					break
+				}
 			}
 		}
 		// one in-memory writer written twice: first after a prefix of the rows, then again after the rest. Both outputs
